@@ -171,7 +171,7 @@ def cbool(b):
 
 def clist(items, ty=None):
     if not items:
-        return '(@nil %s)' % ty if ty else '[]'
+        return '(@nil (%s))' % ty if ty else '[]'
     return '[' + '; '.join(items) + ']'
 
 
